@@ -15,6 +15,8 @@ import (
 )
 
 func main() {
+	// resolve type aliases eagerly: one heap component per type, whatever it is called
+	os.Setenv("GODEBUG", "gotypesalias=0")
 	if len(os.Args) < 2 {
 		fmt.Fprintln(os.Stderr, "usage: govc dump|verify ...")
 		os.Exit(2)
@@ -220,6 +222,7 @@ func (e *Engine) VerifyProps(props []string, only map[string]bool, opts runOpts,
 		rep.Obligations = append(rep.Obligations, u.obls...)
 		rep.Errors = append(rep.Errors, u.errs...)
 	}
+	e.callersOnlyObligations(rep, want)
 	// axioms and lemmas
 	e.loadAxioms(rep)
 	e.lemmaObligations(rep, want)
@@ -425,5 +428,62 @@ func (e *Engine) loadAxioms(rep *Report) {
 			continue
 		}
 		e.gaxioms = append(e.gaxioms, "(assert "+t+") ; axiom "+a.Label)
+	}
+}
+
+// callersOnlyObligations: frame-style obligations over the static call graph of the
+// loaded repository packages: a function may only be called from the listed functions.
+func (e *Engine) callersOnlyObligations(rep *Report, want map[string]bool) {
+	for _, co := range e.cs.Callers {
+		if len(want) > 0 && !hasProp(co.Props, want) {
+			continue
+		}
+		allowed := map[string]bool{}
+		for _, a := range co.Allowed {
+			allowed[a] = true
+		}
+		var bad []string
+		sites := 0
+		for _, key := range sortedKeys(e.fnByKey) {
+			fn := e.fnByKey[key]
+			if !strings.HasPrefix(fnPkgPath(fn), repoMod) || fn.Blocks == nil {
+				continue
+			}
+			for _, b := range fn.Blocks {
+				for _, in := range b.Instrs {
+					ci, ok := in.(ssa.CallInstruction)
+					if !ok {
+						continue
+					}
+					cal := ci.Common().StaticCallee()
+					if cal == nil || !strings.HasSuffix(fnKey(cal), co.Callee) {
+						continue
+					}
+					sites++
+					outer := fn
+					for outer.Parent() != nil {
+						outer = outer.Parent()
+					}
+					nm := stripMod(fnPkgPath(outer)) + "::" + relName(outer)
+					if !allowed[nm] && !allowed[relName(outer)] {
+						bad = append(bad, nm+" at "+e.posStr(in.Pos()))
+					}
+				}
+			}
+		}
+		o := &Obligation{Name: "frame/callers-only." + co.Callee, Kind: "frame", Func: "call graph", Props: co.Props, Where: co.Where,
+			Goal: fmt.Sprintf("%s is called only from %s (%d call sites found in the loaded packages)", co.Callee, strings.Join(co.Allowed, ", "), sites)}
+		if len(bad) == 0 && sites > 0 {
+			o.Verdict = "discharged"
+			o.Result = SolverResult{Verdict: "unsat", Solver: "call-graph scan"}
+		} else {
+			o.Verdict = "failed"
+			o.Result = SolverResult{Verdict: "sat", Solver: "call-graph scan", Output: "unexpected callers: " + strings.Join(bad, "; ")}
+			o.Goal += " -- unexpected callers: " + strings.Join(bad, "; ")
+			if sites == 0 {
+				o.Goal += " -- no call site found (contract is vacuous)"
+			}
+		}
+		rep.Obligations = append(rep.Obligations, o)
 	}
 }
